@@ -5,49 +5,9 @@ From DSW Require Import Py Bignum Convert Kmer Graph Spec GraphSpec.
 From DSW.Proofs Require Import KmerProofs.
 Ltac Zify.zify_post_hook ::= Z.to_euclidean_division_equations.
 
-(* TARGET STATEMENTS (to be proved, do not change the statements):
-
-(* vertex listing: exactly the vertices that have arcs, ascending *)
-Theorem obtain_vertices_spec : forall k acc, legal k acc ->
-  StronglySorted Z.lt (obtain_vertices acc) /\
-  forall v, In v (obtain_vertices acc) <-> (0 <= v < pow4 k /\ live acc v).
-
-(* the latter map lists exactly the live successors of exactly the vertices that have any *)
-Theorem latter_map_content : forall k acc, legal k acc ->
-  StronglySorted Z.lt (keys (accessor_to_latter_map acc)) /\
-  forall v, lookup (accessor_to_latter_map acc) v =
-            if (0 <=? v) && (v <? pow4 k) && row_listed (get_row acc v)
-            then Some (live_entries (get_row acc v)) else None.
-Theorem latter_map_roundtrip : forall k acc, legal k acc ->
-  latter_map_to_accessor (accessor_to_latter_map acc) k None = Ok acc.
-
-(* adjacency matrix *)
-Theorem log4_pow4 : forall k, log4 (pow4 k) = k.
-Theorem matrix_content : forall k acc maxlen, legal k acc -> (k < maxlen)%nat ->
-  exists M, accessor_to_adjacency_matrix acc maxlen = Ok M /\ length M = Z.to_nat (pow4 k) /\
-    forall u v, 0 <= u < pow4 k -> 0 <= v < pow4 k ->
-      (nth (Z.to_nat v) (nth (Z.to_nat u) M []) 0 = 1 <-> exists j, 0 <= j < 4 /\ entry acc u j = v) /\
-      (nth (Z.to_nat v) (nth (Z.to_nat u) M []) 0 = 1 \/ nth (Z.to_nat v) (nth (Z.to_nat u) M []) 0 = 0).
-Theorem matrix_roundtrip : forall k acc maxlen, (1 <= k)%nat -> legal k acc -> (k < maxlen)%nat ->
-  exists M, accessor_to_adjacency_matrix acc maxlen = Ok M /\ adjacency_matrix_to_accessor M = Ok acc.
-(* a matrix with a 1 that is not on a de Bruijn shift is rejected with ValueError *)
-Theorem matrix_reject : forall k M, (1 <= k)%nat -> length M = Z.to_nat (pow4 k) ->
-  (exists u v, 0 <= u < pow4 k /\ 0 <= v /\ nth (Z.to_nat v) (nth (Z.to_nat u) M []) 0 = 1
-               /\ ~ In v (obtain_latters u k)) ->
-  adjacency_matrix_to_accessor M = Raise ValueError.
-
-(* depth-d leaf queries: same list from either representation, equal to the end points of all
-   d-step walks (enumerated depth-first in column order) *)
-Fixpoint walk_ends (acc : accessor) (d : nat) (v : Z) : list Z :=
-  match d with
-  | O => [v]
-  | S d' => flat_map (walk_ends acc d') (live_entries (get_row acc v))
-  end.
-Theorem leaves_agree : forall k acc d v, legal k acc -> 0 <= v < pow4 k ->
-  leaves_acc d acc [v] = Ok (leaves_map d (accessor_to_latter_map acc) [v]).
-Theorem leaves_are_walk_ends : forall k acc d v, legal k acc -> 0 <= v < pow4 k ->
-  leaves_acc d acc [v] = Ok (walk_ends acc d v).
-*)
+(* TARGET STATEMENTS: all proved below exactly as stated, except latter_map_roundtrip, which is
+   false of the model for k = 0 (see latter_map_roundtrip_counterexample); it is proved for
+   1 <= k as latter_map_roundtrip_partial and the original statement is kept in a comment there. *)
 
 (* ---- basics --------------------------------------------------------------------------- *)
 Lemma row4_inv : forall r : list Z, length r = 4%nat -> exists a b c d, r = [a; b; c; d].
@@ -207,3 +167,562 @@ Proof.
   - intros v. rewrite lmap_from_lookup. rewrite (legal_len k acc HL).
     replace (v - 0) with v by lia. replace (0 + pow4 k) with (pow4 k) by lia. reflexivity.
 Qed.
+
+(* ---- latter map -> accessor ---------------------------------------------------------------- *)
+Lemma set_nth_mid : forall (A : Type) (pre : list A) r post x,
+  set_nth (pre ++ r :: post) (length pre) x = pre ++ x :: post.
+Proof.
+  intros A pre r post x. induction pre as [|y ys IH]; cbn [app length set_nth]; [reflexivity|].
+  rewrite IH. reflexivity.
+Qed.
+
+Definition upd (r : list Z) (x : Z) : list Z := set_nth r (Z.to_nat (x mod 4)) x.
+
+Lemma put_arc_mid : forall pre r post x,
+  put_arc (pre ++ r :: post) (Z.of_nat (length pre)) x = Ok (pre ++ upd r x :: post).
+Proof.
+  intros pre r post x. unfold put_arc.
+  replace (Z.of_nat (length pre) <? 0) with false by lia.
+  rewrite app_length. cbn [length].
+  replace (Z.of_nat (length pre) <? 0) with false by lia.
+  replace (Z.of_nat (length pre + S (length post)) <=? Z.of_nat (length pre)) with false by lia.
+  cbn [orb]. unfold set_entry, get_row. rewrite Nat2Z.id, nth_middle, set_nth_mid. reflexivity.
+Qed.
+
+Lemma put_arcs_mid : forall ls pre r post,
+  put_arcs (pre ++ r :: post) (Z.of_nat (length pre)) ls = Ok (pre ++ fold_left upd ls r :: post).
+Proof.
+  induction ls as [|x xs IH]; intros pre r post; cbn [put_arcs fold_left]; [reflexivity|].
+  rewrite put_arc_mid. cbn [bind]. apply IH.
+Qed.
+
+Lemma row_rebuild : forall a b c d,
+  (a = -1 \/ (0 <= a /\ a mod 4 = 0)) -> (b = -1 \/ (0 <= b /\ b mod 4 = 1)) ->
+  (c = -1 \/ (0 <= c /\ c mod 4 = 2)) -> (d = -1 \/ (0 <= d /\ d mod 4 = 3)) ->
+  fold_left upd (live_entries [a; b; c; d]) empty_row = [a; b; c; d].
+Proof.
+  intros a b c d Ha Hb Hc Hd. unfold live_entries, empty_row. cbn [filter].
+  destruct (0 <=? a) eqn:Ea; [assert (Ma : a mod 4 = 0) by lia | assert (a = -1) by lia; subst a];
+  (destruct (0 <=? b) eqn:Eb; [assert (Mb : b mod 4 = 1) by lia | assert (b = -1) by lia; subst b]);
+  (destruct (0 <=? c) eqn:Ec; [assert (Mc : c mod 4 = 2) by lia | assert (c = -1) by lia; subst c]);
+  (destruct (0 <=? d) eqn:Ed; [assert (Md : d mod 4 = 3) by lia | assert (d = -1) by lia; subst d]);
+  cbn [fold_left]; unfold upd;
+  repeat match goal with H : _ mod 4 = _ |- _ => rewrite H; clear H end;
+  change (Z.to_nat 0) with 0%nat; change (Z.to_nat 1) with 1%nat;
+  change (Z.to_nat 2) with 2%nat; change (Z.to_nat 3) with 3%nat;
+  cbn [set_nth]; reflexivity.
+Qed.
+
+Lemma not_listed_empty : forall a b c d, row_listed [a; b; c; d] = false -> [a; b; c; d] = empty_row.
+Proof.
+  intros a b c d H. unfold row_listed in H. cbn [existsb] in H.
+  destruct (a =? -1) eqn:Ea; [|discriminate H].
+  destruct (b =? -1) eqn:Eb; [|discriminate H].
+  destruct (c =? -1) eqn:Ec; [|discriminate H].
+  destruct (d =? -1) eqn:Ed; [|discriminate H].
+  assert (a = -1) by lia. assert (b = -1) by lia. assert (c = -1) by lia. assert (d = -1) by lia.
+  subst. reflexivity.
+Qed.
+
+Definition col_row (row : list Z) : Prop :=
+  exists a b c d, row = [a; b; c; d] /\
+  (a = -1 \/ (0 <= a /\ a mod 4 = 0)) /\ (b = -1 \/ (0 <= b /\ b mod 4 = 1)) /\
+  (c = -1 \/ (0 <= c /\ c mod 4 = 2)) /\ (d = -1 \/ (0 <= d /\ d mod 4 = 3)).
+
+Lemma put_map_suffix : forall suf pre, Forall col_row suf ->
+  put_map (pre ++ repeat empty_row (length suf)) (lmap_from suf (Z.of_nat (length pre))) = Ok (pre ++ suf).
+Proof.
+  induction suf as [|row t IH]; intros pre HF.
+  - cbn [length repeat lmap_from put_map]. reflexivity.
+  - inversion HF as [|? ? Hrow Ht]; subst.
+    destruct Hrow as [a [b [c [d [E [Ha [Hb [Hc Hd]]]]]]]].
+    assert (Hnext : put_map ((pre ++ [row]) ++ repeat empty_row (length t))
+                      (lmap_from t (Z.of_nat (length pre) + 1)) = Ok (pre ++ row :: t)).
+    { replace (Z.of_nat (length pre) + 1) with (Z.of_nat (length (pre ++ [row])))
+        by (rewrite app_length; cbn [length]; lia).
+      rewrite (IH (pre ++ [row]) Ht), <- app_assoc. reflexivity. }
+    rewrite <- app_assoc in Hnext. cbn [app] in Hnext.
+    cbn [length repeat lmap_from]. destruct (row_listed row) eqn:EL.
+    + cbn [put_map]. rewrite put_arcs_mid. cbn [bind].
+      rewrite E at 1. rewrite (row_rebuild a b c d Ha Hb Hc Hd), <- E. exact Hnext.
+    + rewrite E in EL. apply not_listed_empty in EL. subst row. rewrite EL in Hnext at 1. exact Hnext.
+Qed.
+
+Lemma legal_all_rows : forall k acc, legal k acc ->
+  Forall (fun r => exists v, 0 <= v < pow4 k /\ r = get_row acc v) acc.
+Proof.
+  intros k acc HL. pose proof (legal_len k acc HL) as Hlen.
+  rewrite Forall_forall. intros r Hr.
+  destruct (In_nth acc r empty_row Hr) as [i [Hi Hn]].
+  exists (Z.of_nat i). split; [lia|]. unfold get_row. rewrite Nat2Z.id. symmetry. exact Hn.
+Qed.
+
+Lemma good_row_col_row : forall k v row, (1 <= k)%nat -> 0 <= v < pow4 k -> good_row k v row -> col_row row.
+Proof.
+  intros k v row Hk Hv [a [b [c [d [E [Ha [Hb [Hc Hd]]]]]]]]. pose proof (pow4_pos k) as Hp.
+  destruct (latter_column k v 0 Hk Hv ltac:(lia)) as [_ C0].
+  destruct (latter_column k v 1 Hk Hv ltac:(lia)) as [_ C1].
+  destruct (latter_column k v 2 Hk Hv ltac:(lia)) as [_ C2].
+  destruct (latter_column k v 3 Hk Hv ltac:(lia)) as [_ C3].
+  assert (M0 := Z.mod_pos_bound (4 * v + 0) (pow4 k) Hp).
+  assert (M1 := Z.mod_pos_bound (4 * v + 1) (pow4 k) Hp).
+  assert (M2 := Z.mod_pos_bound (4 * v + 2) (pow4 k) Hp).
+  assert (M3 := Z.mod_pos_bound (4 * v + 3) (pow4 k) Hp).
+  exists a, b, c, d. split; [exact E|].
+  repeat split.
+  - destruct Ha as [Ha|Ha]; [left; exact Ha|right; rewrite Ha; split; [apply M0|exact C0]].
+  - destruct Hb as [Hb|Hb]; [left; exact Hb|right; rewrite Hb; split; [apply M1|exact C1]].
+  - destruct Hc as [Hc|Hc]; [left; exact Hc|right; rewrite Hc; split; [apply M2|exact C2]].
+  - destruct Hd as [Hd|Hd]; [left; exact Hd|right; rewrite Hd; split; [apply M3|exact C3]].
+Qed.
+
+(* latter_map_roundtrip as stated is FALSE for k = 0 (pow4 0 = 1: the single vertex 0 has the
+   four "successors" 0, 0, 0, 0, all in column 0 mod 4 = 0); see the counterexample below.
+Theorem latter_map_roundtrip : forall k acc, legal k acc ->
+  latter_map_to_accessor (accessor_to_latter_map acc) k None = Ok acc. *)
+Theorem latter_map_roundtrip_partial : forall k acc, (1 <= k)%nat -> legal k acc ->
+  latter_map_to_accessor (accessor_to_latter_map acc) k None = Ok acc.
+Proof.
+  intros k acc Hk HL. unfold latter_map_to_accessor, accessor_to_latter_map. cbn [bind].
+  unfold blank_accessor. destruct HL as [Hlen HL']. rewrite <- Hlen.
+  assert (HL : legal k acc) by (split; assumption).
+  apply (put_map_suffix acc []).
+  pose proof (legal_all_rows k acc HL) as HA.
+  rewrite Forall_forall in HA |- *. intros r Hr.
+  destruct (HA r Hr) as [v [Hv Er]]. subst r.
+  apply (good_row_col_row k v); [exact Hk|exact Hv|]. apply legal_good_row; assumption.
+Qed.
+
+Theorem latter_map_roundtrip_counterexample :
+  legal 0 [[0; 0; 0; 0]] /\
+  latter_map_to_accessor (accessor_to_latter_map [[0; 0; 0; 0]]) 0 None = Ok [[0; -1; -1; -1]].
+Proof.
+  split; [|reflexivity].
+  split; [reflexivity|]. split; [repeat constructor|].
+  intros v j Hv Hj. change (pow4 0) with 1 in *. assert (v = 0) by lia. subst v.
+  right. assert (Hc4 : j = 0 \/ j = 1 \/ j = 2 \/ j = 3) by lia.
+  destruct Hc4 as [H|[H|[H|H]]]; subst j; reflexivity.
+Qed.
+
+(* ---- log4 ------------------------------------------------------------------------------------ *)
+Lemma log4_fuel_pow4 : forall k f, (k < f)%nat -> log4_fuel f (pow4 k) = k.
+Proof.
+  induction k as [|k IH]; intros f Hf; (destruct f as [|f]; [lia|]); cbn [log4_fuel].
+  - rewrite pow4_0. reflexivity.
+  - rewrite pow4_S. pose proof (pow4_pos k) as Hp.
+    replace (4 * pow4 k <? 4) with false by lia.
+    replace (4 * pow4 k / 4) with (pow4 k) by lia.
+    rewrite IH by lia. reflexivity.
+Qed.
+
+Theorem log4_pow4 : forall k, log4 (pow4 k) = k.
+Proof.
+  intros k. unfold log4. apply log4_fuel_pow4.
+  pose proof (pow4_pos k) as Hp.
+  assert (H : Z.of_nat k < Z.log2_up (pow4 k + 1)).
+  { apply Z.log2_up_lt_pow2; [lia|].
+    assert (2 ^ Z.of_nat k <= 4 ^ Z.of_nat k) by (apply Z.pow_le_mono_l; lia).
+    unfold pow4. lia. }
+  lia.
+Qed.
+
+(* ---- leaves ---------------------------------------------------------------------------------- *)
+Lemma nthZ_nth : forall (A : Type) (l : list A) i d, (i < length l)%nat -> nthZ l i = Some (nth i l d).
+Proof.
+  intros A. induction l as [|x xs IH]; intros i d Hi; cbn [length] in Hi; [lia|].
+  destruct i as [|i]; cbn [nthZ nth]; [reflexivity|]. apply IH. lia.
+Qed.
+
+Lemma py_get_row : forall acc v, 0 <= v < Z.of_nat (length acc) -> py_get acc v = Ok (get_row acc v).
+Proof.
+  intros acc v Hv. unfold py_get.
+  replace (v <? 0) with false by lia. replace (v <? 0) with false by lia.
+  replace (Z.of_nat (length acc) <=? v) with false by lia. cbn [orb].
+  rewrite (nthZ_nth _ acc (Z.to_nat v) empty_row) by lia. reflexivity.
+Qed.
+
+Definition succs (acc : accessor) (v : Z) : list Z := live_entries (get_row acc v).
+
+Lemma leaf_level_acc_ok : forall acc branch, Forall (fun v => 0 <= v < Z.of_nat (length acc)) branch ->
+  leaf_level_acc acc branch = Ok (flat_map (succs acc) branch).
+Proof.
+  intros acc. induction branch as [|v t IH]; intros HF; cbn [leaf_level_acc flat_map]; [reflexivity|].
+  inversion HF as [|? ? Hv Ht]; subst.
+  rewrite (py_get_row acc v Hv). cbn [bind]. rewrite (IH Ht). cbn [bind]. reflexivity.
+Qed.
+
+Lemma succs_in_range : forall k acc v, legal k acc -> 0 <= v < pow4 k ->
+  Forall (fun w => 0 <= w < pow4 k) (succs acc v).
+Proof.
+  intros k acc v HL Hv. pose proof (pow4_pos k) as Hp.
+  destruct (legal_good_row k acc v HL Hv) as [a [b [c [d [E [Ha [Hb [Hc Hd]]]]]]]].
+  assert (Ma := Z.mod_pos_bound (4 * v + 0) (pow4 k) Hp).
+  assert (Mb := Z.mod_pos_bound (4 * v + 1) (pow4 k) Hp).
+  assert (Mc := Z.mod_pos_bound (4 * v + 2) (pow4 k) Hp).
+  assert (Md := Z.mod_pos_bound (4 * v + 3) (pow4 k) Hp).
+  unfold succs, live_entries. rewrite E. rewrite Forall_forall. intros w Hw.
+  apply filter_In in Hw. destruct Hw as [Hin Hge]. cbn [In] in Hin.
+  destruct Hin as [H|[H|[H|[H|[]]]]]; subst w; lia.
+Qed.
+
+Lemma flat_map_flat_map : forall (A B C : Type) (f : A -> list B) (g : B -> list C) l,
+  flat_map g (flat_map f l) = flat_map (fun x => flat_map g (f x)) l.
+Proof.
+  intros A B C f g. induction l as [|x xs IH]; cbn [flat_map]; [reflexivity|].
+  rewrite flat_map_app, IH. reflexivity.
+Qed.
+
+Lemma flat_map_single : forall (A : Type) (l : list A), flat_map (fun v => [v]) l = l.
+Proof. induction l as [|x xs IH]; cbn [flat_map app]; [reflexivity|]. rewrite IH. reflexivity. Qed.
+
+Fixpoint walk_ends (acc : accessor) (d : nat) (v : Z) : list Z :=
+  match d with
+  | O => [v]
+  | S d' => flat_map (walk_ends acc d') (live_entries (get_row acc v))
+  end.
+
+Lemma succs_flat_in_range : forall k acc branch, legal k acc ->
+  Forall (fun v => 0 <= v < pow4 k) branch ->
+  Forall (fun v => 0 <= v < pow4 k) (flat_map (succs acc) branch).
+Proof.
+  intros k acc branch HL HF. rewrite Forall_forall in *. intros w Hw.
+  apply in_flat_map in Hw. destruct Hw as [v [Hv Hin]].
+  pose proof (succs_in_range k acc v HL (HF v Hv)) as HS. rewrite Forall_forall in HS.
+  apply HS. exact Hin.
+Qed.
+
+Lemma leaves_acc_walk : forall k acc d branch, legal k acc ->
+  Forall (fun v => 0 <= v < pow4 k) branch ->
+  leaves_acc d acc branch = Ok (flat_map (walk_ends acc d) branch).
+Proof.
+  intros k acc d. induction d as [|d IH]; intros branch HL HF.
+  - cbn [leaves_acc walk_ends]. change (walk_ends acc 0) with (fun v : Z => [v]).
+    rewrite flat_map_single. reflexivity.
+  - cbn [leaves_acc]. rewrite leaf_level_acc_ok by (rewrite (legal_len k acc HL); exact HF).
+    cbn [bind]. rewrite (IH _ HL (succs_flat_in_range k acc branch HL HF)).
+    rewrite flat_map_flat_map. reflexivity.
+Qed.
+
+Lemma leaf_level_map_ok : forall k acc branch, legal k acc ->
+  Forall (fun v => 0 <= v < pow4 k) branch ->
+  leaf_level_map (accessor_to_latter_map acc) branch = flat_map (succs acc) branch.
+Proof.
+  intros k acc branch HL. unfold leaf_level_map.
+  induction branch as [|v t IH]; intros HF; cbn [flat_map]; [reflexivity|].
+  inversion HF as [|? ? Hv Ht]; subst. rewrite (IH Ht). f_equal.
+  destruct (latter_map_content k acc HL) as [_ Hlook]. rewrite Hlook.
+  replace (0 <=? v) with true by lia. replace (v <? pow4 k) with true by lia. cbn [andb].
+  destruct (row_listed (get_row acc v)) eqn:EL; [reflexivity|].
+  destruct (legal_good_row k acc v HL Hv) as [a [b [c [d [E _]]]]].
+  unfold succs. rewrite E in EL |- *. apply not_listed_empty in EL. rewrite EL. reflexivity.
+Qed.
+
+Lemma leaves_map_walk : forall k acc d branch, legal k acc ->
+  Forall (fun v => 0 <= v < pow4 k) branch ->
+  leaves_map d (accessor_to_latter_map acc) branch = flat_map (walk_ends acc d) branch.
+Proof.
+  intros k acc d. induction d as [|d IH]; intros branch HL HF.
+  - cbn [leaves_map]. change (walk_ends acc 0) with (fun v : Z => [v]).
+    rewrite flat_map_single. reflexivity.
+  - cbn [leaves_map]. rewrite (leaf_level_map_ok k acc branch HL HF).
+    rewrite (IH _ HL (succs_flat_in_range k acc branch HL HF)).
+    rewrite flat_map_flat_map. reflexivity.
+Qed.
+
+Theorem leaves_are_walk_ends : forall k acc d v, legal k acc -> 0 <= v < pow4 k ->
+  leaves_acc d acc [v] = Ok (walk_ends acc d v).
+Proof.
+  intros k acc d v HL Hv.
+  rewrite (leaves_acc_walk k acc d [v] HL) by (constructor; [exact Hv|constructor]).
+  cbn [flat_map]. rewrite app_nil_r. reflexivity.
+Qed.
+
+Theorem leaves_agree : forall k acc d v, legal k acc -> 0 <= v < pow4 k ->
+  leaves_acc d acc [v] = Ok (leaves_map d (accessor_to_latter_map acc) [v]).
+Proof.
+  intros k acc d v HL Hv.
+  assert (HF : Forall (fun v => 0 <= v < pow4 k) [v]) by (constructor; [exact Hv|constructor]).
+  rewrite (leaves_acc_walk k acc d [v] HL HF), (leaves_map_walk k acc d [v] HL HF). reflexivity.
+Qed.
+
+(* ---- accessor -> matrix ----------------------------------------------------------------------- *)
+Lemma pow4_lt : forall k m, (k < m)%nat -> pow4 k < pow4 m.
+Proof. intros k m H. unfold pow4. apply Z.pow_lt_mono_r; lia. Qed.
+
+Lemma fold_min_ge : forall l d m, m <= d -> Forall (fun x => m <= x) l -> m <= fold_left Z.min l d.
+Proof.
+  induction l as [|x xs IH]; intros d m Hd HF; cbn [fold_left]; [exact Hd|].
+  inversion HF as [|? ? Hx Hxs]; subst. apply IH; [lia|exact Hxs].
+Qed.
+
+Lemma fold_max_le : forall l d m, d <= m -> Forall (fun x => x <= m) l -> fold_left Z.max l d <= m.
+Proof.
+  induction l as [|x xs IH]; intros d m Hd HF; cbn [fold_left]; [exact Hd|].
+  inversion HF as [|? ? Hx Hxs]; subst. apply IH; [lia|exact Hxs].
+Qed.
+
+Lemma legal_entries_bound : forall k acc, legal k acc ->
+  Forall (fun x => -1 <= x <= pow4 k - 1) (all_entries acc).
+Proof.
+  intros k acc HL. pose proof (pow4_pos k) as Hp. pose proof (legal_all_rows k acc HL) as HA.
+  rewrite Forall_forall in HA |- *. intros x Hx. unfold all_entries in Hx.
+  apply in_concat in Hx. destruct Hx as [r [Hr Hxr]].
+  destruct (HA r Hr) as [v [Hv Er]].
+  destruct (legal_good_row k acc v HL Hv) as [a [b [c [d [E [Ha [Hb [Hc Hd]]]]]]]].
+  assert (Ma := Z.mod_pos_bound (4 * v + 0) (pow4 k) Hp).
+  assert (Mb := Z.mod_pos_bound (4 * v + 1) (pow4 k) Hp).
+  assert (Mc := Z.mod_pos_bound (4 * v + 2) (pow4 k) Hp).
+  assert (Md := Z.mod_pos_bound (4 * v + 3) (pow4 k) Hp).
+  rewrite Er, E in Hxr. cbn [In] in Hxr.
+  destruct Hxr as [H|[H|[H|[H|[]]]]]; subst x; lia.
+Qed.
+
+Lemma matrix_ok : forall k acc maxlen, legal k acc -> (k < maxlen)%nat ->
+  accessor_to_adjacency_matrix acc maxlen = Ok (map (matrix_row (length acc)) acc).
+Proof.
+  intros k acc maxlen HL Hk. unfold accessor_to_adjacency_matrix.
+  pose proof (legal_len k acc HL) as Hlen. pose proof (pow4_lt k maxlen Hk) as Hlt.
+  rewrite Hlen. replace (pow4 maxlen <=? pow4 k) with false by lia.
+  assert (H1 : forallb (fun r => Nat.eqb (length r) 4) acc = true).
+  { apply forallb_forall. intros r Hr. destruct HL as [_ [HR _]].
+    unfold rows4 in HR. rewrite Forall_forall in HR. rewrite (HR r Hr). reflexivity. }
+  pose proof (legal_entries_bound k acc HL) as HB.
+  assert (H2 : -1 <= minZ (all_entries acc) 0).
+  { unfold minZ. apply fold_min_ge; [lia|]. rewrite Forall_forall in HB |- *.
+    intros x Hx. specialize (HB x Hx). lia. }
+  assert (H3 : maxZ (all_entries acc) (-1) <= pow4 k - 1).
+  { unfold maxZ. pose proof (pow4_pos k). apply fold_max_le; [lia|]. rewrite Forall_forall in HB |- *.
+    intros x Hx. specialize (HB x Hx). lia. }
+  rewrite H1. cbn [negb orb].
+  replace (minZ (all_entries acc) 0 <? -1) with false by lia.
+  replace (pow4 k - 1 <? maxZ (all_entries acc) (-1)) with false by lia.
+  reflexivity.
+Qed.
+
+Lemma matrix_row_length : forall n row, length (matrix_row n row) = n.
+Proof. intros n row. unfold matrix_row, zrange. rewrite map_length, zrange_from_length. reflexivity. Qed.
+
+Lemma matrix_row_nth : forall n row i, (i < n)%nat ->
+  nth i (matrix_row n row) 0 = if memZ (Z.of_nat i) (live_entries row) then 1 else 0.
+Proof.
+  intros n row i Hi. unfold matrix_row, zrange.
+  rewrite (nth_map_lt _ _ (fun c => if memZ c (live_entries row) then 1 else 0) _ _ 0 0)
+    by (rewrite zrange_from_length; exact Hi).
+  rewrite zrange_from_nth by exact Hi. replace (0 + Z.of_nat i) with (Z.of_nat i) by lia. reflexivity.
+Qed.
+
+Lemma memZ_In : forall x l, memZ x l = true <-> In x l.
+Proof.
+  intros x. induction l as [|y t IH]; cbn [memZ In].
+  - split; [discriminate|tauto].
+  - rewrite orb_true_iff, IH. split; intros [H|H]; try (right; exact H); left; lia.
+Qed.
+
+Lemma In_row4 : forall x a b c d,
+  In x [a; b; c; d] <-> exists j, 0 <= j < 4 /\ nth (Z.to_nat j) [a; b; c; d] (-1) = x.
+Proof.
+  intros x a b c d. cbn [In]. split.
+  - intros [H|[H|[H|[H|[]]]]]; [exists 0|exists 1|exists 2|exists 3]; (split; [lia|exact H]).
+  - intros [j [Hj He]]. assert (Hc4 : j = 0 \/ j = 1 \/ j = 2 \/ j = 3) by lia.
+    destruct Hc4 as [H|[H|[H|H]]]; subst j.
+    + change (Z.to_nat 0) with 0%nat in He. cbn [nth] in He. tauto.
+    + change (Z.to_nat 1) with 1%nat in He. cbn [nth] in He. tauto.
+    + change (Z.to_nat 2) with 2%nat in He. cbn [nth] in He. tauto.
+    + change (Z.to_nat 3) with 3%nat in He. cbn [nth] in He. tauto.
+Qed.
+
+Lemma mem_succs : forall k acc u v, legal k acc -> 0 <= u < pow4 k -> 0 <= v ->
+  (memZ v (succs acc u) = true <-> exists j, 0 <= j < 4 /\ entry acc u j = v).
+Proof.
+  intros k acc u v HL Hu Hv.
+  destruct (legal_good_row k acc u HL Hu) as [a [b [c [d [E _]]]]].
+  rewrite memZ_In. unfold succs, live_entries, entry. rewrite filter_In, E, In_row4.
+  split; [intros [H _]; exact H | intros H; split; [exact H|lia]].
+Qed.
+
+Lemma cell_spec : forall k acc u v, legal k acc -> 0 <= u < pow4 k -> 0 <= v < pow4 k ->
+  nth (Z.to_nat v) (nth (Z.to_nat u) (map (matrix_row (length acc)) acc) []) 0 =
+  if memZ v (succs acc u) then 1 else 0.
+Proof.
+  intros k acc u v HL Hu Hv. pose proof (legal_len k acc HL) as Hlen.
+  rewrite (nth_map_lt _ _ (matrix_row (length acc)) acc _ [] empty_row) by lia.
+  rewrite matrix_row_nth by lia. rewrite Z2Nat.id by lia. reflexivity.
+Qed.
+
+Theorem matrix_content : forall k acc maxlen, legal k acc -> (k < maxlen)%nat ->
+  exists M, accessor_to_adjacency_matrix acc maxlen = Ok M /\ length M = Z.to_nat (pow4 k) /\
+    forall u v, 0 <= u < pow4 k -> 0 <= v < pow4 k ->
+      (nth (Z.to_nat v) (nth (Z.to_nat u) M []) 0 = 1 <-> exists j, 0 <= j < 4 /\ entry acc u j = v) /\
+      (nth (Z.to_nat v) (nth (Z.to_nat u) M []) 0 = 1 \/ nth (Z.to_nat v) (nth (Z.to_nat u) M []) 0 = 0).
+Proof.
+  intros k acc maxlen HL Hk. exists (map (matrix_row (length acc)) acc).
+  split; [apply (matrix_ok k); assumption|]. split.
+  - rewrite map_length. destruct HL as [Hlen _]. exact Hlen.
+  - intros u v Hu Hv. rewrite (cell_spec k acc u v HL Hu Hv).
+    rewrite <- (mem_succs k acc u v HL Hu) by lia.
+    destruct (memZ v (succs acc u)); split; try tauto; split; intros; try reflexivity; discriminate.
+Qed.
+
+(* ---- matrix -> accessor ----------------------------------------------------------------------- *)
+Lemma ones_from_In : forall r s x, In x (ones_from r s) <->
+  (s <= x < s + Z.of_nat (length r) /\ nth (Z.to_nat (x - s)) r 0 = 1).
+Proof.
+  induction r as [|y t IH]; intros s x.
+  - cbn [ones_from In length]. split; [tauto|]. intros [H _]. lia.
+  - cbn [ones_from length]. rewrite Nat2Z.inj_succ.
+    destruct (Z.eq_dec x s) as [->|Hne].
+    + replace (s - s) with 0 by lia. change (Z.to_nat 0) with 0%nat. cbn [nth].
+      destruct (y =? 1) eqn:E.
+      * cbn [In]. split; [intros _; split; lia | intros _; left; reflexivity].
+      * rewrite IH. split; [intros [H _]; lia | intros [_ H]; lia].
+    + destruct (y =? 1) eqn:E; cbn [In]; rewrite IH.
+      * split.
+        -- intros [H|[H1 H2]]; [congruence|]. rewrite nth_shift by lia. split; [lia|exact H2].
+        -- intros [H1 H2]. right. rewrite nth_shift in H2 by lia. split; [lia|exact H2].
+      * split.
+        -- intros [H1 H2]. rewrite nth_shift by lia. split; [lia|exact H2].
+        -- intros [H1 H2]. rewrite nth_shift in H2 by lia. split; [lia|exact H2].
+Qed.
+
+Lemma mem_next : forall n row x,
+  memZ x (ones_from (matrix_row n row) 0) = true <->
+  (0 <= x < Z.of_nat n /\ In x (live_entries row)).
+Proof.
+  intros n row x. rewrite memZ_In, ones_from_In, matrix_row_length.
+  replace (x - 0) with x by lia. split.
+  - intros [H1 H2]. split; [lia|]. rewrite matrix_row_nth in H2 by lia.
+    rewrite Z2Nat.id in H2 by lia. apply memZ_In.
+    destruct (memZ x (live_entries row)); [reflexivity|discriminate].
+  - intros [H1 H2]. split; [lia|]. rewrite matrix_row_nth by lia.
+    rewrite Z2Nat.id by lia. apply memZ_In in H2. rewrite H2. reflexivity.
+Qed.
+
+Lemma row_back : forall k v row n, (1 <= k)%nat -> 0 <= v < pow4 k -> Z.of_nat n = pow4 k ->
+  good_row k v row ->
+  forallb (fun x => memZ x (obtain_latters v k)) (ones_from (matrix_row n row) 0) = true /\
+  map (fun x => if memZ x (ones_from (matrix_row n row) 0) then x else -1) (obtain_latters v k) = row.
+Proof.
+  intros k v row n Hk Hv Hn [a [b [c [d [E [Ha [Hb [Hc Hd]]]]]]]]. pose proof (pow4_pos k) as Hp.
+  assert (Href : obtain_latters v k =
+    [(4 * v + 0) mod pow4 k; (4 * v + 1) mod pow4 k; (4 * v + 2) mod pow4 k; (4 * v + 3) mod pow4 k]).
+  { unfold obtain_latters. cbn [map].
+    replace (v * 4 + 0) with (4 * v + 0) by lia. replace (v * 4 + 1) with (4 * v + 1) by lia.
+    replace (v * 4 + 2) with (4 * v + 2) by lia. replace (v * 4 + 3) with (4 * v + 3) by lia.
+    reflexivity. }
+  destruct (latter_column k v 0 Hk Hv ltac:(lia)) as [_ C0].
+  destruct (latter_column k v 1 Hk Hv ltac:(lia)) as [_ C1].
+  destruct (latter_column k v 2 Hk Hv ltac:(lia)) as [_ C2].
+  destruct (latter_column k v 3 Hk Hv ltac:(lia)) as [_ C3].
+  assert (M0 := Z.mod_pos_bound (4 * v + 0) (pow4 k) Hp).
+  assert (M1 := Z.mod_pos_bound (4 * v + 1) (pow4 k) Hp).
+  assert (M2 := Z.mod_pos_bound (4 * v + 2) (pow4 k) Hp).
+  assert (M3 := Z.mod_pos_bound (4 * v + 3) (pow4 k) Hp).
+  rewrite Href.
+  set (r0 := (4 * v + 0) mod pow4 k) in *. set (r1 := (4 * v + 1) mod pow4 k) in *.
+  set (r2 := (4 * v + 2) mod pow4 k) in *. set (r3 := (4 * v + 3) mod pow4 k) in *.
+  clearbody r0 r1 r2 r3. set (P := pow4 k) in *. clearbody P.
+  set (next := ones_from (matrix_row n row) 0).
+  assert (Hmem : forall x, memZ x next = true <->
+            (0 <= x < P /\ (a = x \/ b = x \/ c = x \/ d = x))).
+  { intros x. unfold next. rewrite mem_next, E. unfold live_entries. rewrite filter_In. cbn [In].
+    rewrite Hn. split.
+    - intros [H1 [H2 _]]. split; [exact H1|]. tauto.
+    - intros [H1 H2]. split; [exact H1|]. split; [tauto|lia]. }
+  split.
+  - apply forallb_forall. intros x Hx. apply memZ_In in Hx. apply Hmem in Hx.
+    apply memZ_In. cbn [In]. lia.
+  - cbn [map]. rewrite E.
+    assert (E0 : (if memZ r0 next then r0 else -1) = a).
+    { destruct (memZ r0 next) eqn:Em.
+      - apply Hmem in Em. lia.
+      - assert (Hn0 : ~ (0 <= r0 < P /\ (a = r0 \/ b = r0 \/ c = r0 \/ d = r0)))
+          by (rewrite <- Hmem; congruence). lia. }
+    assert (E1 : (if memZ r1 next then r1 else -1) = b).
+    { destruct (memZ r1 next) eqn:Em.
+      - apply Hmem in Em. lia.
+      - assert (Hn0 : ~ (0 <= r1 < P /\ (a = r1 \/ b = r1 \/ c = r1 \/ d = r1)))
+          by (rewrite <- Hmem; congruence). lia. }
+    assert (E2 : (if memZ r2 next then r2 else -1) = c).
+    { destruct (memZ r2 next) eqn:Em.
+      - apply Hmem in Em. lia.
+      - assert (Hn0 : ~ (0 <= r2 < P /\ (a = r2 \/ b = r2 \/ c = r2 \/ d = r2)))
+          by (rewrite <- Hmem; congruence). lia. }
+    assert (E3 : (if memZ r3 next then r3 else -1) = d).
+    { destruct (memZ r3 next) eqn:Em.
+      - apply Hmem in Em. lia.
+      - assert (Hn0 : ~ (0 <= r3 < P /\ (a = r3 \/ b = r3 \/ c = r3 \/ d = r3)))
+          by (rewrite <- Hmem; congruence). lia. }
+    rewrite E0, E1, E2, E3. reflexivity.
+Qed.
+
+Lemma matrix_rows_back : forall k n suf s, (1 <= k)%nat -> Z.of_nat n = pow4 k ->
+  (forall i, (i < length suf)%nat ->
+     0 <= s + Z.of_nat i < pow4 k /\ good_row k (s + Z.of_nat i) (nth i suf empty_row)) ->
+  matrix_rows (map (matrix_row n) suf) s k = Ok suf.
+Proof.
+  intros k n. induction suf as [|row t IH]; intros s Hk Hn H; cbn [map matrix_rows]; [reflexivity|].
+  destruct (H 0%nat ltac:(cbn [length]; lia)) as [Hs Hg].
+  replace (s + Z.of_nat 0) with s in Hs, Hg by lia. cbn [nth] in Hg.
+  destruct (row_back k s row n Hk Hs Hn Hg) as [Hf Hm].
+  rewrite Hf, Hm. rewrite (IH (s + 1) Hk Hn).
+  - reflexivity.
+  - intros i Hi. specialize (H (S i) ltac:(cbn [length]; lia)).
+    replace (s + Z.of_nat (S i)) with (s + 1 + Z.of_nat i) in H by lia. cbn [nth] in H. exact H.
+Qed.
+
+Theorem matrix_roundtrip : forall k acc maxlen, (1 <= k)%nat -> legal k acc -> (k < maxlen)%nat ->
+  exists M, accessor_to_adjacency_matrix acc maxlen = Ok M /\ adjacency_matrix_to_accessor M = Ok acc.
+Proof.
+  intros k acc maxlen Hk HL Hm. exists (map (matrix_row (length acc)) acc).
+  split; [apply (matrix_ok k); assumption|].
+  pose proof (legal_len k acc HL) as Hlen.
+  unfold adjacency_matrix_to_accessor. rewrite map_length, Hlen, log4_pow4.
+  apply matrix_rows_back; [exact Hk|exact Hlen|].
+  intros i Hi. replace (0 + Z.of_nat i) with (Z.of_nat i) by lia. split; [lia|].
+  pose proof (legal_good_row k acc (Z.of_nat i) HL ltac:(lia)) as Hg.
+  unfold get_row in Hg. rewrite Nat2Z.id in Hg. exact Hg.
+Qed.
+
+Lemma matrix_rows_reject : forall k rows s i, (i < length rows)%nat ->
+  (exists x, In x (ones_from (nth i rows []) 0) /\ memZ x (obtain_latters (s + Z.of_nat i) k) = false) ->
+  matrix_rows rows s k = Raise ValueError.
+Proof.
+  intros k. induction rows as [|r t IH]; intros s i Hi Hex; cbn [length] in Hi; [lia|].
+  cbn [matrix_rows].
+  destruct (forallb (fun x => memZ x (obtain_latters s k)) (ones_from r 0)) eqn:Ef; [|reflexivity].
+  destruct i as [|i].
+  - destruct Hex as [x [Hx Hmx]]. cbn [nth] in Hx. replace (s + Z.of_nat 0) with s in Hmx by lia.
+    rewrite forallb_forall in Ef. rewrite (Ef x Hx) in Hmx. discriminate.
+  - rewrite (IH (s + 1) i ltac:(lia)); [reflexivity|].
+    destruct Hex as [x [Hx Hmx]]. exists x. cbn [nth] in Hx. split; [exact Hx|].
+    replace (s + 1 + Z.of_nat i) with (s + Z.of_nat (S i)) by lia. exact Hmx.
+Qed.
+
+Theorem matrix_reject : forall k M, (1 <= k)%nat -> length M = Z.to_nat (pow4 k) ->
+  (exists u v, 0 <= u < pow4 k /\ 0 <= v /\ nth (Z.to_nat v) (nth (Z.to_nat u) M []) 0 = 1
+               /\ ~ In v (obtain_latters u k)) ->
+  adjacency_matrix_to_accessor M = Raise ValueError.
+Proof.
+  intros k M Hk Hlen [u [v [Hu [Hv [H1 Hnin]]]]]. pose proof (pow4_pos k) as Hp.
+  unfold adjacency_matrix_to_accessor.
+  apply (matrix_rows_reject _ M 0 (Z.to_nat u)); [lia|].
+  exists v. split.
+  - apply ones_from_In. replace (v - 0) with v by lia. split; [|exact H1].
+    destruct (Nat.lt_ge_cases (Z.to_nat v) (length (nth (Z.to_nat u) M []))) as [Hlt|Hge]; [lia|].
+    rewrite nth_overflow in H1 by exact Hge. discriminate.
+  - rewrite Z2Nat.id by lia. replace (0 + u) with u by lia.
+    rewrite Hlen, Z2Nat.id, log4_pow4 by lia.
+    destruct (memZ v (obtain_latters u k)) eqn:Em; [|reflexivity].
+    apply memZ_In in Em. contradiction.
+Qed.
+
+Print Assumptions obtain_vertices_spec.
+Print Assumptions latter_map_content.
+Print Assumptions latter_map_roundtrip_partial.
+Print Assumptions latter_map_roundtrip_counterexample.
+Print Assumptions log4_pow4.
+Print Assumptions matrix_content.
+Print Assumptions matrix_roundtrip.
+Print Assumptions matrix_reject.
+Print Assumptions leaves_agree.
+Print Assumptions leaves_are_walk_ends.
